@@ -221,7 +221,13 @@ func (c *Compiled) RunContext(ctx context.Context) (err error) {
 	v := NewVM(c.bytecode, c.globals, c.maxAllocs)
 	ch := make(chan error, 1)
 	go func() {
+		if verifOn && verifGate != nil {
+			verifGate("runnerStart")
+		}
 		defer func() {
+			if verifOn && verifGate != nil {
+				defer verifGate("runnerSent")
+			}
 			if r := recover(); r != nil {
 				switch e := r.(type) {
 				case string:
@@ -239,9 +245,15 @@ func (c *Compiled) RunContext(ctx context.Context) (err error) {
 	select {
 	case <-ctx.Done():
 		v.Abort()
+		if verifOn && verifGate != nil {
+			verifGate("afterAbort")
+		}
 		<-ch
 		err = ctx.Err()
 	case err = <-ch:
+	}
+	if verifOn && verifGate != nil {
+		verifGate("callerRet")
 	}
 	return
 }
